@@ -4,7 +4,7 @@ Same machine as C01, applied to DataPointSampler, PruneRegraphSampler, ParticleG
 iteration of run._run_main_sampler (the real loop body)."""
 import random
 
-from sim import bridge, kernelcheck, kernelmat
+from sim import bridge, kernelcheck, kernelmat, pgpath, runner
 from sim.kernelcheck import PROPOSALS
 
 LEVEL = "exploration"
@@ -30,6 +30,7 @@ def configs(ctx):
         out.append(dc(op="sweep", n=2, proposal=prop, data_seed=44))
         out.append(dc(op="sweep", n=2, proposal=prop, data_seed=45, outlier_prob=0.2, alpha=0.6))
         out.append(dc(op="sweep", n=2, proposal=prop, data_seed=46, subtree_prob=0.5))
+    mandatory = len(out)
     out.append(dc(op="sweep", n=3, proposal="semi-adapted", data_seed=47))
     r = random.Random(ctx.sub("cfg"))
     for i in range(30 if quick else 300):
@@ -47,14 +48,21 @@ def configs(ctx):
             out.append(dc(op="sweep", n=3, proposal=prop, data_seed=49, outlier_prob=0.1))
         out.append(dc(op="dp", n=5, data_seed=50))
         out.append(dc(op="prg", n=5, data_seed=51))
-    return out
+    return out, mandatory
 
 
 def run(ctx):
-    cfgs = configs(ctx)
+    cfgs, N_MANDATORY = configs(ctx)
     bridge.warm_up()
     kernelcheck.check_pinned(ctx)
-    kernelcheck.run_configs(ctx, cfgs, budget_s=75 if ctx.tier == "quick" else 3000)
+    kernelcheck.run_configs(ctx, cfgs, budget_s=70 if ctx.tier == "quick" else 3000, mandatory=N_MANDATORY)
+    seeds = [ctx.sub(("path", i)) for i in range(120 if ctx.tier == "quick" else 4000)]
+    res = [o for o in runner.pmap(pgpath.task, seeds, timeout=1200) if o["cfg"]["op"] == "subtree"]
+    for out in res:
+        for key, detail in out["problems"]:
+            ctx.violation(key, detail + " | sampled path seed %d config %r" % (out["seed"], out["cfg"]), {"path_seed": out["seed"], "key": key})
+    ctx.cov["sampled_subtree_updates_beyond_traversable_sizes"] = {"runs": len(res), "n": "4..7", "N": "2..10",
+                                                                     "resamples": sum(o["stats"]["resamples"] for o in res)}
     ctx.cov["rule"] = ("configuration = (operation dp|prg|subtree|sweep, data set of n<=4 points, alpha, outlier probability, and for "
                        "subtree/sweep the proposal, particles, threshold, wiring); fixed cross plus seeded random ones; one evaluation "
                        "= one start state whose complete outcome tree of the move was traversed; sweep = one real iteration of "
@@ -69,4 +77,12 @@ def run(ctx):
 
 
 def replay(ctx, obj):
+    if "path_seed" in obj:
+        bridge.warm_up()
+        out = pgpath.task(obj["path_seed"])
+        for key, detail in out["problems"]:
+            if key == obj["key"]:
+                ctx.violation(key, detail, obj)
+        ctx.cov["evaluations"] = 1
+        return
     kernelcheck.replay(ctx, obj)
